@@ -567,6 +567,18 @@ func (ctx Ctx) methodExpr(call *ast.CallExpr) coq.Expr {
 			}
 			return ctx.newCoqCall("StringFromBytes", args)
 		}
+		// signed integers, 16-bit integers and floats have no GooseLang
+		// counterpart: the no-op below would compute with the unsigned 64-bit value
+		if to, ok := ctx.typeOf(call).Underlying().(*types.Basic); ok &&
+			to.Info()&types.IsNumeric != 0 {
+			switch to.Kind() {
+			case types.Uint64, types.Uint, types.Uint32, types.Uint8:
+			default:
+				ctx.unsupported(call,
+					"conversion to type %v (use uint64, uint32 or byte)", ctx.typeOf(call))
+				return coq.CallExpr{}
+			}
+		}
 		// a different type conversion, which is a noop in GooseLang (which is
 		// untyped)
 		// TODO: handle integer conversions here, checking if call.Fun is an integer
